@@ -49,6 +49,7 @@ TierParams tier_params(const std::string &prop, const std::string &tier) {
 const char *phase_name(int ph) {
   switch (ph) {
     case PH_GEN: return "generate"; case PH_COMPILE: return "compile"; case PH_LOAD: return "load"; case PH_VMRUN: return "vmrun";
+    case PH_SESSION: return "session";
     case PH_DEBUGGER: return "debugger"; case PH_SCAN: return "scan"; case PH_MACRO: return "macro"; case PH_HARNESS: return "harness";
     default: return "none";
   }
@@ -59,6 +60,8 @@ std::string crash_property(int ph, const std::string &focus) {
     case PH_COMPILE: case PH_SCAN: case PH_MACRO: return focus == "C15" || focus == "C11" || focus == "C18" ? focus : "C02";
     case PH_VMRUN: case PH_LOAD: return focus == "C18" ? focus : "C03";
     case PH_DEBUGGER: return focus;
+    // the uninterrupted run executed these very instructions without a crash: the debugger history made the difference
+    case PH_SESSION: return focus == "C05" || focus == "C06" || focus == "C07" || focus == "C17" || focus == "C19" ? focus : "C03";
     default: return "";
   }
 }
@@ -139,7 +142,7 @@ Verdict verdict_of(const ChildResult &c, const std::string &focus) {
   Verdict v;
   if (c.crashed) {
     std::string p = crash_property(c.phase, focus);
-    if (c.phase == PH_VMRUN && c.err.find("signed integer overflow") != std::string::npos) p = "C20";
+    if ((c.phase == PH_VMRUN || (c.phase == PH_SESSION && p == "C03")) && c.err.find("signed integer overflow") != std::string::npos) p = "C20";
     v.bad = !p.empty() && p == focus;
     v.prop = p;
     v.oracle = std::string(c.timed_out ? "hang:" : "crash:") + phase_name(c.phase) + (c.site.empty() || c.timed_out ? "" : "@" + c.site);
@@ -256,6 +259,18 @@ struct Shrinker {
       for (auto &t : p.tasks) { ddmin<Op>(t.ops, test); shrink_project(t.proj, test); }
       return p;
     }
+    if (!p.history.empty()) {
+      // earlier plans of the process: as few as possible, each reduced to "compile these files" where that is enough
+      if (p.history.size() > 1) ddmin<Plan>(p.history, test);
+      for (auto &h : p.history) {
+        Plan keep = h;
+        Plan m = h.world == "fs" && !h.ops.empty() ? materialise_fs_plan(h) : h;
+        m.world = "fs"; m.ops.clear(); m.knobs.clear(); m.history.clear(); m.tasks.clear(); m.schedule.clear(); m.note = "earlier in the same process: compile these files";
+        h = m;
+        if (!test()) h = keep;
+      }
+      if (p.history.size() <= 2) for (auto &h : p.history) if (h.ops.empty()) shrink_project(h.proj, test);
+    }
     ddmin<Op>(p.ops, test);
     if (p.world == "fs" && p.prop == "C02" && !p.ops.empty()) {
       // turn the faults into plain text: what was delivered becomes the project
@@ -284,7 +299,7 @@ std::vector<Known> load_known(const std::string &path) {
   return k;
 }
 
-struct Candidate { long long run, sub; bool crash; int phase; Outcome out; bool hang = false; };
+struct Candidate { long long run, sub; bool crash; int phase; Outcome out; bool hang = false; long long hist_first = -1; };
 
 }  // namespace
 
@@ -416,7 +431,7 @@ int check_main(Config cfg) {
 
   int W = cfg.workers;
   Slot *slots = (Slot *)mmap(nullptr, sizeof(Slot) * (size_t)W, PROT_READ | PROT_WRITE, MAP_SHARED | MAP_ANONYMOUS, -1, 0);
-  struct WState { pid_t pid = -1; int fd = -1; std::string buf; bool done = false; long long last_run = -1; double last_progress = 0; bool late_reported = false; };
+  struct WState { pid_t pid = -1; int fd = -1; std::string buf; bool done = false; long long last_run = -1; double last_progress = 0; bool late_reported = false; long long proc_first = -1; };
   std::vector<WState> ws((size_t)W);
   auto spawn = [&](int k, long long first_run) {
     int pfd[2];
@@ -430,7 +445,7 @@ int check_main(Config cfg) {
       worker_main(cfg, k, first_run, pfd[1], &slots[k], deadline, 3);
     }
     close(pfd[1]);
-    ws[(size_t)k].pid = pid; ws[(size_t)k].fd = pfd[0]; ws[(size_t)k].buf.clear(); ws[(size_t)k].done = false; ws[(size_t)k].last_progress = now_s();
+    ws[(size_t)k].pid = pid; ws[(size_t)k].fd = pfd[0]; ws[(size_t)k].buf.clear(); ws[(size_t)k].done = false; ws[(size_t)k].last_progress = now_s(); ws[(size_t)k].proc_first = first_run;
   };
   for (int k = 0; k < W; k++) spawn(k, k);
 
@@ -467,7 +482,7 @@ int check_main(Config cfg) {
       if (!sample.empty() && samples.size() < 3) samples.push_back(Json::parse(sample).s);
       if (o.violated) {
         std::string cls = o.prop + ":" + o.oracle;
-        if (cand_per_class[cls]++ < 3) cands.push_back({run, sub, false, 0, o});
+        if (cand_per_class[cls]++ < 3) { Candidate c{run, sub, false, 0, o}; c.hist_first = ws[(size_t)k].proc_first; cands.push_back(c); }
       }
       ws[(size_t)k].last_run = run; ws[(size_t)k].last_progress = now_s();
     } else if (line[0] == 'X') {
@@ -514,7 +529,7 @@ int check_main(Config cfg) {
             std::string p = crash_property(ph, cfg.prop);
             std::string werr;
             try { werr = read_file(cfg.logs + "/" + cfg.prop + ".w" + std::to_string(k) + ".err"); } catch (...) {}
-            if (ph == PH_VMRUN && werr.find("signed integer overflow") != std::string::npos) p = "C20";
+            if ((ph == PH_VMRUN || (ph == PH_SESSION && p == "C03")) && werr.find("signed integer overflow") != std::string::npos) p = "C20";
             std::string wsite = crash_site(werr);
             if (run < 0 || p.empty()) { infra_errors++; fprintf(stderr, "[check] worker %d died outside a library phase (run %lld, phase %s, status %d): %s\n", k, run, phase_name(ph), st, crash_headline(werr).c_str()); }
             else if (p != cfg.prop) { foreign_crashes++; stats.inc(std::string("foreign_crash:") + p + ":" + phase_name(ph)); }
@@ -571,6 +586,43 @@ int check_main(Config cfg) {
     Verdict v1 = verdict_of(r1, cfg.prop);
     ChildResult r2 = run_in_child(p, "", 300, errfile);
     Verdict v2 = verdict_of(r2, cfg.prop);
+    if (!v1.bad && !v2.bad && !c.crash && c.hist_first >= 0 && c.hist_first < c.run && p.world != "mt") {
+      // Not a property of this plan alone.  The worker that reported it had executed other plans before it in the same
+      // process; what a process did earlier must not matter, so that history becomes part of the plan: all of it first,
+      // then as few earlier plans as still reproduce the report.
+      std::vector<Plan> hist;
+      for (long long h = c.hist_first; h < c.run; h += cfg.workers)
+        for (long long hs = 0; hs < 64; hs++) {
+          Plan hp = gen_plan(cfg.prop, cfg.seed, h, hs, cfg.tier);
+          hist.push_back(hp);
+          if (!hp.knobs.count("enum_total") || hs + 1 >= hp.knobs["enum_total"]) break;
+        }
+      for (long long hs = 0; hs < c.sub && hs < 64; hs++) hist.push_back(gen_plan(cfg.prop, cfg.seed, c.run, hs, cfg.tier));
+      if (hist.size() > 400) hist.erase(hist.begin(), hist.end() - 400);
+      Plan ph = p; ph.history = hist;
+      ChildResult h1 = run_in_child(ph, "", 600, errfile);
+      Verdict hv1 = verdict_of(h1, cfg.prop);
+      if (hv1.bad && !h1.crashed) {
+        auto still = [&](const std::vector<Plan> &hh) { Plan q = p; q.history = hh; ChildResult r = run_in_child(q, "", 600, errfile); Verdict v = verdict_of(r, cfg.prop); return v.bad && !r.crashed && v.oracle == hv1.oracle; };
+        // the last few plans first, then ddmin
+        for (size_t keep : {(size_t)1, (size_t)4, (size_t)16}) if (hist.size() > keep) { std::vector<Plan> t(hist.end() - (long)keep, hist.end()); if (still(t)) { hist = t; break; } }
+        for (size_t chunk = hist.size() / 2; chunk >= 1 && hist.size() > 1; ) {
+          bool removed = false;
+          for (size_t i = 0; i + chunk <= hist.size() && hist.size() > 1;) {
+            std::vector<Plan> t(hist.begin(), hist.begin() + (long)i); t.insert(t.end(), hist.begin() + (long)(i + chunk), hist.end());
+            if (!t.empty() && still(t)) { hist = t; removed = true; } else i += chunk;
+          }
+          if (chunk == 1 && !removed) break;
+          if (!removed || chunk > hist.size() / 2) chunk = std::max<size_t>(1, chunk / 2);
+          if (chunk == 1 && hist.size() == 1) break;
+        }
+        p.history = hist;
+        p.note += " + " + std::to_string(hist.size()) + " earlier plan(s) of the same process";
+        fprintf(stderr, "[check] candidate run %lld sub %lld needs the history of its process: reduced to %zu earlier plan(s)\n", c.run, c.sub, hist.size());
+        r1 = run_in_child(p, "", 300, errfile); v1 = verdict_of(r1, cfg.prop);
+        r2 = run_in_child(p, "", 300, errfile); v2 = verdict_of(r2, cfg.prop);
+      }
+    }
     if (!v1.bad || !v2.bad || v1.oracle != v2.oracle || v1.hash != v2.hash) {
       fprintf(stderr, "[check] candidate run %lld sub %lld did not reproduce identically in fresh processes (%d/%d, %s vs %s): engine error\n", c.run, c.sub, v1.bad, v2.bad, v1.oracle.c_str(), v2.oracle.c_str());
       exit_code = 2;
